@@ -22,7 +22,7 @@ BUILDER_ORACLE = {'unit': 'builder', 'mount': 'src/compiler/builder.rs', 'mod': 
 # obligations of the builder unit that carry C20 (span recording) rather than C10 (widths)
 C20_BUILDER = (r'^builder/BytecodeBuilder::(emit|emit_jump|emit_jump_if_true|emit_jump_if_false|emit_jump_if_nullish|'
                r'emit_jump_if_not_nullish|emit_jump_to|emit_halt|set_span|clear_span|new|finish|patch_jump|patch_jump_to|'
-               r'patch_try_targets|patch_iter_try_target|current_offset|emit_load_string)/|^builder/BytecodeChunk::|^builder/lemma::lemma_lookup|^(lexer_pos|bytecode_srcmap|lexer_spans)/|^induction/lemma::lemma_walk')
+               r'patch_try_targets|patch_iter_try_target|current_offset|emit_load_string)/|^builder/BytecodeChunk::|^builder/lemma::lemma_lookup|^(lexer_pos|bytecode_srcmap|lexer_spans|parser_spans)/|^induction/lemma::lemma_walk')
 C10_EXCLUDE = r'#(span_recorded|span_inherited|earlier_spans_kept)$|::(set_span|clear_span)/'
 
 PROPS = {
@@ -101,6 +101,11 @@ PROPS = {
                  'lexer_make_span_contract': {'kind': 'complete', 'fn': 'Lexer::make_span'},
                  'lexer_checkpoint_restore_contract': {'kind': 'bounded', 'bound': 'source of 2 characters (each any Unicode scalar value)', 'fn': 'Lexer::checkpoint/restore'},
              }, 'replay_test': 'verif_replay_lexer_pos'},
+            {'unit': 'parser_spans', 'mount': 'src/parser.rs', 'mod': 'verif_kani_parser_spans',
+             'harnesses': {
+                 'parser_span_from_contract': {'kind': 'complete', 'fn': 'Parser::span_from'},
+                 'parser_error_position_contract': {'kind': 'complete', 'fn': 'Parser::error'},
+             }, 'replay_test': 'verif_replay_parser_spans'},
             {'unit': 'bytecode_srcmap', 'mount': 'src/compiler/bytecode.rs', 'mod': 'verif_kani_bytecode_srcmap',
              'harnesses': {
                  'srcmap_lookup_len0': {'kind': 'bounded', 'bound': 'source map of exactly 0 entries (symbolic offsets/spans/query)', 'fn': 'BytecodeChunk::get_source_location'},
